@@ -1181,6 +1181,11 @@ class Process(StateMachine, persistence.Savable, metaclass=ProcessStateMachineMe
 
             def do_kill(_next_state: process_states.State) -> Any:
                 try:
+                    if isinstance(_next_state, process_states.Excepted):
+                        # the step that just ended failed: as for an exception that escapes the state's execute(),
+                        # the failure is the outcome and is not replaced by the kill
+                        self.transition_to(_next_state)
+                        return False
                     new_state = self._create_state_instance(process_states.ProcessState.KILLED, msg=exception.msg)
                     self.transition_to(new_state)
                     return True
